@@ -302,13 +302,29 @@ func (vc *FuncVC) storeComps(addr ssa.Value) []string {
 
 // ---------- memory access ----------
 
+// baseOf maps the address of an embedded struct or of a struct element to the
+// allocation unit that contains it (identity on allocation units).
+func (vc *FuncVC) baseOf(ref Term) Term {
+	f := vc.declFun("baseOf", []string{SInt}, SInt)
+	return T(app(f, ref), SInt)
+}
+
+func (vc *FuncVC) isAlloc(st *State, ref Term) Term {
+	return Select(st.get("alloc"), vc.baseOf(ref), SBool)
+}
+
 func (vc *FuncVC) fldRef(si *structInfo, i int, ref Term) Term {
-	f := vc.declFun("fld!"+si.Name+"!"+si.Fields[i].Name, []string{SInt}, SInt)
+	name := "fld!" + si.Name + "!" + si.Fields[i].Name
+	f := vc.declFun(name, []string{SInt}, SInt)
+	b := vc.declFun("baseOf", []string{SInt}, SInt)
+	vc.onceAssume(name, T(fmt.Sprintf("(forall ((r Int)) (! (and (= (%s (%s r)) (%s r)) (> (%s r) 0)) :pattern ((%s r))))", b, f, b, f, f), SBool))
 	return T(app(f, ref), SInt)
 }
 
 func (vc *FuncVC) elemRef(arr, idx Term) Term {
 	f := vc.declFun("elemref", []string{SInt, SInt}, SInt)
+	b := vc.declFun("baseOf", []string{SInt}, SInt)
+	vc.onceAssume("elemref.base", T(fmt.Sprintf("(forall ((a Int) (j Int)) (! (and (= (%s (%s a j)) (%s a)) (> (%s a j) 0)) :pattern ((%s a j))))", b, f, b, f, f), SBool))
 	return T(app(f, arr, idx), SInt)
 }
 
@@ -536,7 +552,7 @@ func (vc *FuncVC) backEdges() {
 		env.loop = li
 		env.phiEdge = predIdx
 		for _, inv := range invs {
-			vc.oblige("inv.preserve", fmt.Sprintf("inv.loop%d.%s.preserve", li.ordinal, inv.name), vc.edgeCond[b][i], inv.f(env), inv.src)
+			vc.oblige("inv.preserve", fmt.Sprintf("inv.loop%d.%s.preserve", li.ordinal, inv.name), vc.edgeCond[b][i], inv.goal(env), inv.src)
 		}
 	}
 }
@@ -547,6 +563,7 @@ func (vc *FuncVC) execAlloc(x *ssa.Alloc) {
 	a := vc.cur.get("alloc")
 	vc.assume(Cmp("<", IntLit(0), r))
 	vc.assume(Not(Select(a, r, SBool)))
+	vc.assume(Eq(vc.baseOf(r), r))
 	vc.cur = vc.cur.set("alloc", Store(a, r, tTrue))
 	vc.vals[x] = &Val{T: r, Typ: x.Type()}
 	vc.nonNil[x] = true
@@ -913,6 +930,7 @@ func (vc *FuncVC) freshRef(prefix string) Term {
 	a := vc.cur.get("alloc")
 	vc.assume(Cmp("<", IntLit(0), r))
 	vc.assume(Not(Select(a, r, SBool)))
+	vc.assume(Eq(vc.baseOf(r), r))
 	vc.cur = vc.cur.set("alloc", Store(a, r, tTrue))
 	return r
 }
@@ -1176,7 +1194,7 @@ func (vc *FuncVC) execReturn(x *ssa.Return) {
 		env.results = append(env.results, vc.val(r))
 	}
 	for n, e := range vc.C.Ensures {
-		f := vc.evalBool(env, e)
+		f := vc.evalGoal(env, e)
 		vc.oblige("post", "post."+clauseName(e, n), vc.g(), f, e.Src)
 	}
 	vc.checkFrame()
